@@ -993,9 +993,13 @@ static int write_char(void *context, cif_value_tp *char_value, int allow_text) {
                     if (!allow_text || (analysis.contains_text_delim && IS_CIF1(context))) {
                         result = CIF_DISALLOWED_VALUE;
                     } else {
-                        /* write as a text block, possibly with line-folding and/or prefixing  */
-                        int fold = ((analysis.length_first >= LINE_LENGTH(context))
-                                || (analysis.length_max > LINE_LENGTH(context))
+                        /*
+                         * write as a text block, possibly with line-folding and/or prefixing; when every line is
+                         * going to carry the prefix, that much less of each line is available to the text
+                         */
+                        int available = LINE_LENGTH(context) - (analysis.contains_text_delim ? PREFIX_LENGTH : 0);
+                        int fold = ((analysis.length_first >= available)
+                                || (analysis.length_max > available)
                                 || analysis.has_reserved_start
                                 || (analysis.max_semi_run >= (LINE_LENGTH(context) - 1)));
 
